@@ -41,6 +41,16 @@ pub fn c12dec(args: &[String]) {
                     return Err(format!("state {i}: (symbol, bits, baseline) = {:?}, specified {:?}", got, want));
                 }
             }
+            // the reader's limits: accepted exactly within them
+            for l in c["limits"].as_array().unwrap() {
+                let (ml, ms, acc) = (l["maxlog"].as_u64().unwrap() as u8, l["maxsym"].as_u64().unwrap() as u8, l["accept"].as_bool().unwrap());
+                let mut tl = FSETable::new(ms);
+                let got = tl.build_decoder(&bytes, ml).is_ok();
+                if got != acc {
+                    return Err(format!("a reader limited to accuracy log {ml} and symbols 0..={ms} {} the description (specified: {})",
+                        if got { "accepts" } else { "refuses" }, if acc { "accept" } else { "refuse" }));
+                }
+            }
             // the same table through build_from_probabilities (the path of the predefined tables)
             let mut t2 = FSETable::new(255);
             t2.build_from_probabilities(al, &probs).map_err(|e| e.to_string())?;
